@@ -40,6 +40,12 @@ package acr
 //@   loop 5
 //@     complete [all_iterations_no_early_exit]
 //@     step [one_step_per_child_lacking_the_kept_state] next(nsteps) == nsteps + (child != prev && states[child.id][maxState] == 0.0 ? 1 : 0)
+//@   loop 2
+//@     complete [all_iterations_no_early_exit]
+//@   loop 3
+//@     complete [all_iterations_no_early_exit]
+//@   loop 4
+//@     complete [all_iterations_no_early_exit]
 
 // ---------------------------------------------------------------------------
 // Character parsimony, down-pass (property C12): the neighbour counts are accumulated in a buffer made for the
@@ -51,11 +57,31 @@ package acr
 //@   requires cur != nil
 //@   call acr.computeParsimony@L1 [up_state_of_a_child_from_a_buffer_made_for_that_child] freshiter(a0) && a1 == upstates[child.id] && child != prev
 //@   call acr.parsimonyDOWNPASS [recursion_goes_to_the_children_only_with_the_same_tables] a0 == child && child != prev && a1 == cur && a2 == states && a3 == upstates
+//@   loop 1
+//@     complete [all_iterations_no_early_exit]
+//@   loop 2
+//@     complete [all_iterations_no_early_exit]
+//@   loop 3
+//@     complete [all_iterations_no_early_exit]
+//@   loop 4
+//@     complete [all_iterations_no_early_exit]
+//@   loop 5
+//@     complete [all_iterations_no_early_exit]
+//@   loop 6
+//@     complete [all_iterations_no_early_exit]
+//@   loop 7
+//@     complete [all_iterations_no_early_exit]
+//@   loop 8
+//@     complete [all_iterations_no_early_exit]
 
 // randomlyResolveNodeStates keeps one of the retained states, drawn with math/rand: rewrites state counts only (thin)
 //@ func acr.randomlyResolveNodeStates
 //@   requires node != nil
 //@   assigns elems("float64"), ghost(rand_count), ghost(rand_last), ghost(rand_range)
+//@   loop 1
+//@     complete [all_iterations_no_early_exit]
+//@   loop 2
+//@     complete [all_iterations_no_early_exit]
 
 // ---------------------------------------------------------------------------
 // DELTRAN (property C12): a non-root inner node keeps exactly the states it shares with its parent; when it
@@ -83,6 +109,8 @@ package acr
 //@     invariant [node_keeps_exactly_the_states_shared_with_its_parent] forall k int :: {states[cur.id][k]} 0 <= k && k < len(stateIndices) ==> states[cur.id][k] == (k <= rangeindex ? (old(states[cur.id][k]) + old(states[prev.id][k]) > 1.0 ? 1.0 : 0.0) : old(states[cur.id][k]))
 //@     invariant [parent_untouched] forall k int :: {states[prev.id][k]} 0 <= k && k < len(stateIndices) ==> states[prev.id][k] == old(states[prev.id][k])
 //@     invariant [table_shape] rowsok(states, len(stateIndices)) && rowsapart(states)
+//@   loop 4
+//@     complete [all_iterations_no_early_exit]
 
 // ---------------------------------------------------------------------------
 // ACCTRAN (property C12): every child of a node keeps exactly the states it shares with that node; when it shares
@@ -111,6 +139,8 @@ package acr
 //@     invariant [sums_kept] len(state) == len(stateIndices) && fresh_arr(state) && (forall k int :: {state[k]} 0 <= k && k < len(state) ==> state[k] == lold(state[k]) && state[k] == lold(states[child.id][k]) + lold(states[cur.id][k]))
 //@     invariant [child_keeps_exactly_the_states_shared_with_the_node] forall k int :: {states[child.id][k]} 0 <= k && k < len(stateIndices) ==> states[child.id][k] == (k <= rangeindex ? (lold(states[child.id][k]) + lold(states[cur.id][k]) > 1.0 ? 1.0 : 0.0) : lold(states[child.id][k]))
 //@     invariant [node_untouched] rowsok(states, len(stateIndices)) && rowsapart(states) && (forall k int :: {states[cur.id][k]} 0 <= k && k < len(stateIndices) ==> states[cur.id][k] == lold(states[cur.id][k]))
+//@   loop 5
+//@     complete [all_iterations_no_early_exit]
 
 // assignStatesToTree (property C12, "states written as node comments"): for every node the buffer is emptied first, then
 // exactly the states with a positive count are written, each by its own name, separated by one bar; a star when no
